@@ -419,7 +419,9 @@ def oracle(case, R):
 
 
 CKAP = 1000.0
-CTOL = 1000.0    # calibrated: worst normalised error on the unchanged tree ~10 (see evidence)
+CTOL = 3000.0    # calibrated: worst normalised error on the unchanged tree ~10 in general (see evidence) and 1350
+#                  where the terms of one step nearly cancel (zero initial state, F0 = -1, F1 = 2 under first-order
+#                  hold: A F0 + B F1 with A ~ 2 B), the response being its own scale; regress chk-one-step-cancellation
 
 
 REGS = ["under", "under", "over", "crit", "nearcrit", "rb", "rbd", "rf"]
